@@ -19,7 +19,7 @@ def strip_comments(t):
 
 def statement(lib, lemma):
     text = strip_comments((COQ / "proofs" / f"{lib}.v").read_text())
-    m = re.search(rf"^\s*(?:Lemma|Theorem|Corollary)\s+{re.escape(lemma)}\b(.*?)\.\s*\n\s*Proof\.", text, flags=re.S | re.M)
+    m = re.search(rf"^\s*(?:Lemma|Theorem|Corollary|Example)\s+{re.escape(lemma)}\b(.*?)\.\s*\n\s*Proof\.", text, flags=re.S | re.M)
     if not m:
         sys.exit(f"cannot find {lemma} in {lib}.v")
     hdr = m.group(1)
